@@ -1,12 +1,19 @@
 // rewrite <repo-dir> <out-dir> <vsync-source-file> : produces the -overlay description that
 // builds the library with its synchronisation rerouted through the cooperative scheduler:
+//
 //   - every non-test .go file of the package that imports "sync" or contains a go statement is
 //     re-emitted with the import "sync" pointing to <module>/vsync (same type names) and every
 //     `go f(a, b)` turned into `{ f0, a0, b0 := f, a, b; sync.Go(func() { f0(a0, b0) }) }`
 //     (operands are still evaluated in the spawning goroutine, as the language requires);
+//
 //   - <repo>/vsync/vsync.go is added (virtual directory).
 //
-// The rewrite is purely syntactic, so it keeps working when the async code is edited.
+//   - channels: `chan T` becomes *sync.Chan[T]; make, send, receive (one- and two-valued), close,
+//     len/cap, range over a channel and select are lowered to calls into the scheduler (chan.go), so a
+//     library that coordinates its workers through channels is explored like one that uses WaitGroups.
+//
+// The rewrite is syntactic; go/types is consulted (best effort) only to tell a range/len/cap over a
+// channel from one over a slice or map. It keeps working when the async code is edited.
 package main
 
 import (
@@ -15,8 +22,10 @@ import (
 	"fmt"
 	"go/ast"
 	"go/format"
+	"go/importer"
 	"go/parser"
 	"go/token"
+	"go/types"
 	"os"
 	"path/filepath"
 	"strconv"
@@ -33,20 +42,43 @@ func main() {
 	repo, out, vs := os.Args[1], os.Args[2], os.Args[3]
 	repo, _ = filepath.Abs(repo)
 	os.MkdirAll(out, 0o755)
-	replace := map[string]string{filepath.Join(repo, "vsync", "vsync.go"): vs}
+	replace := map[string]string{}
+	vsFiles, _ := filepath.Glob(filepath.Join(filepath.Dir(vs), "*.go"))
+	for _, v := range vsFiles {
+		if !strings.HasSuffix(v, "_test.go") {
+			replace[filepath.Join(repo, "vsync", filepath.Base(v))] = v
+		}
+	}
 	files, _ := filepath.Glob(filepath.Join(repo, "*.go"))
-	rewritten, goStmts, libYields := 0, 0, 0
+	rewritten, goStmts, libYields, chanOps := 0, 0, 0, 0
 	fineMode := os.Getenv("VERIF_FINE") != "0"
+	fset := token.NewFileSet()
+	var names []string
+	var parsed []*ast.File
 	for _, f := range files {
 		if strings.HasSuffix(f, "_test.go") {
 			continue
 		}
-		fset := token.NewFileSet()
 		af, err := parser.ParseFile(fset, f, nil, parser.ParseComments)
 		if err != nil {
 			fmt.Fprintln(os.Stderr, "parse:", err)
 			os.Exit(1)
 		}
+		names, parsed = append(names, f), append(parsed, af)
+	}
+	// best-effort type information (errors are ignored: whatever could be typed is used)
+	info := &types.Info{Types: map[ast.Expr]types.TypeAndValue{}}
+	conf := types.Config{Importer: importer.ForCompiler(fset, "source", nil), Error: func(error) {}}
+	conf.Check("anytype", fset, parsed, info)
+	isChan := func(e ast.Expr) bool {
+		if tv, ok := info.Types[e]; ok && tv.Type != nil {
+			_, ok := tv.Type.Underlying().(*types.Chan)
+			return ok
+		}
+		return false
+	}
+	for fi, f := range names {
+		af := parsed[fi]
 		changed := false
 		syncName := ""
 		for _, imp := range af.Imports {
@@ -102,6 +134,11 @@ func main() {
 			yields++
 			return &ast.ExprStmt{X: &ast.CallExpr{Fun: &ast.SelectorExpr{X: ast.NewIdent(pkgName()), Sel: ast.NewIdent("LibYield")}}}
 		}
+		nch := rewriteChannels(af, pkgName, isChan)
+		if nch > 0 {
+			changed = true
+			chanOps += nch
+		}
 		if fineMode {
 			ast.Inspect(af, func(nd ast.Node) bool {
 				switch x := nd.(type) {
@@ -136,7 +173,7 @@ func main() {
 			changed = true
 			libYields += yields
 		}
-		if n > 0 || yields > 0 {
+		if n > 0 || yields > 0 || nch > 0 {
 			changed = true
 			goStmts += n
 			if syncName == "" {
@@ -160,5 +197,5 @@ func main() {
 	}
 	b, _ := json.MarshalIndent(map[string]interface{}{"Replace": replace}, "", " ")
 	os.WriteFile(filepath.Join(out, "overlay.json"), b, 0o644)
-	fmt.Printf("rewrite: %d files rewritten, %d go statements rerouted, %d LibYield points inserted (function entries, loop bodies)\n", rewritten, goStmts, libYields)
+	fmt.Printf("rewrite: %d files rewritten, %d go statements rerouted, %d channel constructs lowered, %d LibYield points inserted (function entries, loop bodies)\n", rewritten, goStmts, chanOps, libYields)
 }
